@@ -46,9 +46,14 @@ type c18Conn struct {
 	pos    int
 	zero   bool // a zero-length read (0,nil) before every chunk
 	zeroNx bool
-	wrote  []byte
-	closes int
-	reads  int
+	// eofLast: the Read call that delivers the last bytes of data also reports io.EOF (n > 0
+	// together with io.EOF; legal for io.Reader, done by TLS conns, pipes and wrapped conns).
+	// Added after the independently seeded change C18-10 (HTTP inbound: hand-written relay loop
+	// that checks the Read error before using the bytes returned by the same call).
+	eofLast bool
+	wrote   []byte
+	closes  int
+	reads   int
 }
 
 func (c *c18Conn) Read(p []byte) (int, error) {
@@ -79,6 +84,9 @@ func (c *c18Conn) Read(p []byte) (int, error) {
 	}
 	n := copy(p, c.data[c.pos:end])
 	c.pos += n
+	if c.eofLast && c.pos == len(c.data) {
+		return n, io.EOF
+	}
 	return n, nil
 }
 
@@ -292,6 +300,9 @@ type c18Case struct {
 	Auth   bool   `json:"auth_configured"`
 	// Warm: another local client completed an authenticated CONNECT through the same Server first
 	Warm bool `json:"after_another_connection_authenticated,omitempty"`
+	// EOFLast: the client connection reports io.EOF in the same Read call that returns the last
+	// bytes of the stream (instead of a separate (0, io.EOF) afterwards)
+	EOFLast bool `json:"eof_with_last_bytes,omitempty"`
 }
 
 var c18SuccessReply = []byte{5, 0, 0, 1, 0, 0, 0, 0, 0, 0}
@@ -324,7 +335,7 @@ func c18RunInner(c *c18Case, ref c18Ref) (string, string) {
 		log = nil
 		hy.peers = nil
 	}
-	conn := &c18Conn{data: append(make([]byte, 0, len(c.Stream)), c.Stream...), cuts: c.Cuts, zero: c.Zero}
+	conn := &c18Conn{data: append(make([]byte, 0, len(c.Stream)), c.Stream...), cuts: c.Cuts, zero: c.Zero, eofLast: c.EOFLast}
 	s.dispatch(conn) // returns when the connection is finished (relay ends at client EOF)
 
 	accepted := false
@@ -543,7 +554,7 @@ type c18SocksRun struct {
 func (x *c18SocksRun) one(p *evidence.Part, c *c18Case, trunc bool) {
 	p.Evaluations++
 	clause, detail, ref := c18Run(c)
-	p.Class(ref.Stage, ref.Outcome, ref.Creds, c.Auth, len(c.Cuts), c.Zero, trunc, clause)
+	p.Class(ref.Stage, ref.Outcome, ref.Creds, c.Auth, len(c.Cuts), c.Zero, trunc, c.EOFLast, clause)
 	if p.Evaluations%9973 == 7 {
 		p.Sample(map[string]any{"stream": hex.EncodeToString(c.Stream), "cuts": c.Cuts, "zero_reads": c.Zero, "auth_configured": c.Auth, "reference": ref.Stage + "/" + ref.Outcome})
 	}
@@ -555,6 +566,9 @@ func (x *c18SocksRun) one(p *evidence.Part, c *c18Case, trunc bool) {
 		x.reported[key] = true
 		cc := *c
 		sig := fmt.Sprintf("%s/%s/stream=%x,cuts=%v,zero=%v,auth=%v", p.Name, clause, c.Stream, c.Cuts, c.Zero, c.Auth)
+		if c.EOFLast {
+			sig += ",eof-with-last-bytes"
+		}
 		x.sh.Violate(p.Name, sig, detail, &cc)
 	}
 }
@@ -767,10 +781,61 @@ func c18SocksEnumerate(sh *evidence.Shard) {
 		p3.Exhaustive = false
 		p3.Note("deadline reached inside the repeated user/pass enumeration")
 	}
+
+	// (4) end of the client stream reported together with its last bytes: the scripted connection
+	// returns (n > 0, io.EOF) from the Read call that delivers the tail of the stream, wherever
+	// that tail starts (inside the negotiation, at the end of the request, or inside the bytes
+	// pipelined behind the CONNECT request, which the relay reads itself). Same reference reader
+	// and clauses; in particular relay-not-intact: every byte behind the request reaches the
+	// upstream, in order. Added after the independently seeded change C18-10 (HTTP inbound: io.Copy
+	// replaced by a hand-written relay loop that drops the bytes a Read call returns together with
+	// io.EOF or an error).
+	p4 := sh.Part("socks-eof-with-last-bytes", "enum")
+	p4.Alphabet = alphabet
+	maxCuts := 1
+	if th {
+		maxCuts = 2
+	}
+	p4.Bounds = map[string]any{"streams": "star streams (one grammar dimension varied from 5 base streams), AuthFunc configured and nil; whole, every truncation, chunkings, byte at a time", "end_of_stream": "Read returns the last chunk of the stream together with io.EOF (n > 0, io.EOF)", "cuts": fmt.Sprintf("<=%d, every offset", maxCuts), "zero_reads": []bool{false, true}}
+	for _, s := range c18Star() {
+		for _, a := range []bool{true, false} {
+			for l := len(s) - 1; l >= 0; l-- {
+				if mine() {
+					x.one(p4, &c18Case{Stream: s[:l:l], Auth: a, EOFLast: true}, true)
+				}
+			}
+			if a && mine() {
+				x.one(p4, &c18Case{Stream: s, Auth: true, Warm: true, EOFLast: true}, false)
+			}
+			c18Cuts2(len(s), func(cuts []int) {
+				if len(cuts) > maxCuts {
+					return
+				}
+				for _, z := range []bool{false, true} {
+					if mine() {
+						x.one(p4, &c18Case{Stream: s, Cuts: append([]int(nil), cuts...), Zero: z, Auth: a, EOFLast: true}, false)
+					}
+				}
+			})
+			every := make([]int, 0, len(s))
+			for i := 1; i < len(s); i++ {
+				every = append(every, i)
+			}
+			for _, z := range []bool{false, true} {
+				if mine() {
+					x.one(p4, &c18Case{Stream: s, Cuts: every, Zero: z, Auth: a, EOFLast: true}, false)
+				}
+			}
+		}
+	}
+	if expired {
+		p4.Exhaustive = false
+		p4.Note("deadline reached inside the eof-with-last-bytes enumeration")
+	}
 }
 
 func c18SocksReplay(part string, raw json.RawMessage) (bool, bool, string) {
-	if part != "socks-truncations" && part != "socks-chunkings" && part != "socks-repeated-userpass" {
+	if part != "socks-truncations" && part != "socks-chunkings" && part != "socks-repeated-userpass" && part != "socks-eof-with-last-bytes" {
 		return false, false, ""
 	}
 	var c c18Case
